@@ -453,7 +453,8 @@ class Run(object):
                 g = f
                 while g.op == "=>":
                     g = g.args[1]
-                if g.op == "=" and g.args[0].op == "#const" and str(f) not in known:
+                if g.op == "=" and g.args[0].op == "#const" and str(f) not in known and "!q" not in str(f):
+                    # (a definition that mentions a bound variable of the formula being evaluated stays local to it)
                     st.pc.append(f)
             st.cells.update({k: c for k, c in st2.cells.items() if k not in st.cells})
             for k, h in st2.heap.items():
@@ -764,6 +765,14 @@ class Run(object):
                 raise Unsupported("slice step")
             lo = self.ev(sl.lower, st) if sl.lower is not None else None
             hi = self.ev(sl.upper, st) if sl.upper is not None else None
+            if isinstance(lo, OptV):
+                # a bound that may be None at run time means "from the start"; in the contracts it is used after an
+                # `is not None` conjunct: take the payload, obliging the path to prove it is not None
+                self.check(st, Not(lo.isnone), "TypeError", node)
+                lo = lo.val
+            if isinstance(hi, OptV):
+                self.check(st, Not(hi.isnone), "TypeError", node)
+                hi = hi.val
             if isinstance(hi, NoneV):
                 hi = None
             if isinstance(lo, NoneV):
@@ -783,6 +792,8 @@ class Run(object):
         if t.op not in ("seq.extract", "str.substr"):
             return t
         x, a, n = t.args
+        if "!q" in str(a) or "!q" in str(n):
+            return t  # inside a quantified formula: a name for a bound-variable term would escape its binder
         if a.op not in ("#int", "#const"):
             c = self.fresh("lo", INT)
             st.assume(Eq(c, a))
@@ -808,6 +819,10 @@ class Run(object):
         return self.wrap(st, term, ety)
 
     def index(self, st, base, idx, node=None):
+        if isinstance(idx, OptV) and isinstance(base, ListV):
+            # a list index that may be None: TypeError when it is
+            self.check(st, Not(idx.isnone), "TypeError", node)
+            idx = idx.val
         if isinstance(base, ListV):
             seq = self.raw(st, base) if st.cells[base.cell][0] is not None else None
             if seq is None:
@@ -993,6 +1008,14 @@ class Run(object):
                 a = self.val_as(st, a, INT, node)
             else:
                 b = self.val_as(st, b, INT, node)
+        if isinstance(op, (ast.Lt, ast.LtE, ast.Gt, ast.GtE)) and (isinstance(a, OptV) or isinstance(b, OptV)):
+            # ordering an optional value: TypeError when it is None
+            if isinstance(a, OptV):
+                self.check(st, Not(a.isnone), "TypeError", node)
+                a = a.val
+            if isinstance(b, OptV):
+                self.check(st, Not(b.isnone), "TypeError", node)
+                b = b.val
         if isinstance(a, T) and isinstance(b, T) and a.sort == INT and b.sort == INT:
             f = {ast.Lt: Lt, ast.LtE: Le, ast.Gt: Gt, ast.GtE: Ge}[type(op)]
             return f(a, b)
@@ -1531,7 +1554,22 @@ class Run(object):
                 r = Nth(val, Sub(n, I(1)))
                 self.mutate(st, lv, Extract(val, I(0), Sub(n, I(1))))
                 return self.wrap_elem(st, r, lv.elem)
-            raise Unsupported("pop(i)")
+            # pop(i): negative indices count from the end; out of range raises IndexError
+            (i,) = args
+            if isinstance(i, OptV):
+                self.check(st, Not(i.isnone), "TypeError", node)
+                i = i.val
+            if not (isinstance(i, T) and i.sort == INT):
+                raise Unsupported("pop with a non-integer index")
+            self.check(st, And(Le(Neg(n), i), Lt(i, n)), "IndexError", node)
+            ii = norm_index(val, i)
+            if ii.op not in ("#int", "#const"):
+                c = self.fresh("idx", INT)
+                st.assume(Eq(c, ii))
+                ii = c
+            r = Nth(val, ii)
+            self.mutate(st, lv, Concat(Extract(val, I(0), ii), Extract(val, Add(ii, I(1)), Sub(Sub(n, ii), I(1)))))
+            return self.wrap_elem(st, r, lv.elem)
         if name == "insert":
             i, x = args
             if val is None:
@@ -1540,6 +1578,16 @@ class Run(object):
             # python clamps insert index
             ii = Ite(Lt(i, I(0)), tm.Max(Add(n, i), I(0)), tm.Min(i, n))
             self.mutate(st, lv, Concat(Extract(val, I(0), ii), Unit(self.raw(st, x)), Extract(val, ii, Sub(n, ii))))
+            return NONE
+        if name == "sort" and not args:
+            # in-place sort of a list of integers: an uninterpreted permutation (same length, every element of the result is
+            # an element of the argument: the lemma engine treats sorted_int(L) as derived from L; ascending order)
+            if val is None:
+                return NONE
+            if val.sort != Seq(INT):
+                raise Unsupported("sort of a non-integer list")
+            UFS["sorted_int"] = ([Seq(INT)], Seq(INT))
+            self.mutate(st, lv, App("sorted_int", (val,), Seq(INT)))
             return NONE
         if name == "index":
             raise Unsupported("list.index")
@@ -1553,6 +1601,12 @@ class Run(object):
     def mutate(self, st, lv, newval):
         if lv.cell in st.ghost.get("#captured", ()):
             raise Unsupported("in-place mutation of a list that was stored inside another list")
+        if newval is not None and len(str(newval)) > 400 and not self.spec_mode:
+            # a list that went through several in-place operations: name the intermediate value (a definition), so that the
+            # next operation does not nest the whole history into every index expression
+            c = self.fresh("lst", newval.sort)
+            st.assume(Eq(c, newval))
+            newval = c
         self.set_cell(st, lv.cell, newval)
 
     # ---------------------------------------------------------- user functions
